@@ -311,6 +311,15 @@ class C10(Scenario):
         big = tier == "thorough"
         opts = specmod.merge_opts(depth=4 if big else 3, max_nodes=14 if big else 9, max_coll=2, max_num=4, big_bins=0.06)
         sp = specmod.gen_spec(rng.fork("tree"), opts)
+        # one large histogram per tree: two of them nested are 90 000 bins (three: 23 million), copied by every operation
+        seen_big = False
+        for _, nd in specmod.walk(sp):
+            if nd["p"] == "Bin" and nd.get("num", 0) >= 256:
+                if seen_big:
+                    bw = (nd["high"] - nd["low"]) / nd["num"]
+                    nd["num"] = 3
+                    nd["high"] = nd["low"] + 3 * bw
+                seen_big = True
         crit = specmod.critical_values(sp)
         d = rng.fork("data")
         recs = [specmod.gen_record(d, crit, {"no_none": True}) for _ in range(d.randint(2, 10))]
@@ -366,6 +375,10 @@ class C10(Scenario):
                     "steps": steps, "reload_acc": False, "reload_p": False, "tol": tol, "tolmode": tolmode}
         muts = [(dsc, m) for dsc, m in structural_mutants(sp, tiny=True) if _valid_spec(m)]
         steps = [{"op": "misdeliver", "what": dsc, "mutant": m, "form": f} for dsc, m in muts for f in FORMS]
+        if seen_big and len(steps) > 40:
+            # a tree around a 256-bin histogram costs about a second per misdelivery (every operand is built, filled, copied and
+            # serialised several times): a seeded sample of the misdeliveries keeps the run inside the watchdog
+            steps = [steps[i] for i in sorted(k.sample(list(range(len(steps))), 40))]
         return {"spec": sp, "records": [specmod.enc_record(r) for r in recs], "acc_fill": acc_fill, "acc_fill2": acc_fill2,
                 "p_fill": p_fill, "steps": steps, "reload_acc": reload_acc, "reload_p": reload_p, "tol": tol, "tolmode": tolmode}
 
